@@ -147,6 +147,3 @@ Proof.
   vm_compute in E. inversion E; subst. cbn [P cnt r rl mk]. split; [reflexivity|]. split; [|repeat split; reflexivity].
   intros a Ha. cbv beta. destruct a as [|[|[|a]]]; try reflexivity. congruence.
 Qed.
-Print Assumptions writer_exclusion_refuted.
-Print Assumptions guards_release_what_they_took_refuted.
-Print Assumptions cancelled_drop_leaks_the_lock_refuted.
